@@ -362,6 +362,12 @@ impl UserRx {
         }
     }
 
+    /// Keep the "reader must wake the dispatcher" threshold used by flush() in sync with the
+    /// segment size the dispatcher uses to decide when to advertise a zero window.
+    pub fn set_max_incoming_payload(&mut self, max_incoming_payload: NonZeroUsize) {
+        self.max_incoming_payload = max_incoming_payload;
+    }
+
     /// Flush the outstanding messages to user read half.
     /// Returns the number of bytes flushed.
     pub fn flush(&mut self, cx: &mut std::task::Context<'_>) -> crate::Result<usize> {
